@@ -12,6 +12,7 @@ import (
 
 func usage() {
 	fmt.Fprintln(os.Stderr, "usage: harness run <opsfile|->")
+	fmt.Fprintln(os.Stderr, "       harness gen -seed <int> -histories <N> -maxops <L> -ops <opsfile> -obs <obsfile> [-profile quick|thorough] [-focus hooks|faults]")
 	os.Exit(2)
 }
 
@@ -25,6 +26,11 @@ func main() {
 			usage()
 		}
 		if err := runFile(os.Args[2], os.Stdout); err != nil {
+			fmt.Fprintln(os.Stderr, "harness:", err)
+			os.Exit(1)
+		}
+	case "gen":
+		if err := genMain(os.Args[2:]); err != nil {
 			fmt.Fprintln(os.Stderr, "harness:", err)
 			os.Exit(1)
 		}
